@@ -39,6 +39,14 @@ def hostile_program(seed):
     g.word = word
     p = g.program()
     p["id"] = "cli-%d" % seed
+    # names are case-sensitive in Ink: some knots get a name with capitals (a divert typed at the prompt must reach them)
+    kns = list(p.get("knots") or [])
+    forced = r.choice(kns) if kns else None
+    for kn in kns:
+        if kn == forced or r.random() < 0.5:
+            new = "Knot" + kn[1:].upper() + "x"
+            p["src"] = re.sub(r"\b%s\b" % re.escape(kn), new, p["src"])
+            p["knots"] = [new if x == kn else x for x in p["knots"]]
     return p
 
 
@@ -147,6 +155,8 @@ def run(tier, seed):
                 if node not in turns or turns[node]["nch"] == 0:
                     break
                 c = rnd.random()
+                if si == 0 and not inputs and knots:
+                    c = 0.93        # (the first session of every program starts with a divert to a knot that exists)
                 nch = turns[node]["nch"]
                 kids = nxt.get(node, {})
                 if c < 0.45 and kids:
@@ -178,7 +188,8 @@ def run(tier, seed):
                     inputs.append(dict(k="divert", v=0, lab="", known=False))
                     raw.append("-> " + path)
                 elif c < 0.95 and knots and jump is None:
-                    kn = rnd.choice(knots)
+                    caps = [k for k in knots if k != k.lower()]
+                    kn = rnd.choice(caps if caps and rnd.random() < 0.7 else knots)
                     jump = (tuple(node), kn, len(inputs))
                     inputs.append(dict(k="divert", v=0, lab="j:" + kn, known=True))
                     raw.append("-> " + kn)
@@ -376,7 +387,10 @@ def run(tier, seed):
                     elif isinstance(o, dict) and "issues" in o:
                         msgs += [x for x in o["issues"] if isinstance(x, str)]
                 text = "\n".join(msgs)
-            if det.get("message") and det["message"] not in text:
+            # (a source with an INCLUDE line: the library is called without a file handler here and says so, the tool has
+            # one and says that the file cannot be read - two different, both correct, messages)
+            includes = "but no file handler was provided" in (det.get("message") or "")
+            if det.get("message") and det["message"] not in text and not (includes and "Failed to read included file" in text):
                 report("Compile.message_missing", pay)
             elif det.get("line") and ("c%d.ink:%d" % (i, det["line"])) not in text:
                 report("Compile.file_or_line_missing", pay)
